@@ -124,6 +124,13 @@ class C13(TalCheck):
                                   f"{y['site']}), whose enclosing expressions "
                                   f"stand at {units}"})
                     break
+        if r.get("tcalls") != m.get("tcalls") and not vs:
+            # what the translation function was handed: message ids with
+            # ${name} placeholders and the named parts in the mapping
+            vs.append({"kind": "translate-calls", "sig": "translate-calls",
+                       "detail": f"the translation function was called with "
+                                 f"{str(r.get('tcalls'))[:400]}, expected "
+                                 f"{str(m.get('tcalls'))[:400]}"})
         if r["handler"] != m["handler"]:
             vs.append({"kind": "handler", "sig": "handler-calls",
                        "detail": f"on_error_handler calls {r['handler']}, "
